@@ -556,14 +556,37 @@ def run(check):
     else:
       r_x.violate('pattern not anchored / joined by literal dots', br, None, 'the rule regex is not "\\\\.".join(parts) + "$": it can match '
                   'a prefix of a longer name or treat "." as a wildcard', construct="'\\\\.'.join(parts) + '$'")
+    # the pieces cut out of a pattern part around '<field>' / '<<field>>' start right behind / end right before the delimiter
+    vn_br = ValueNumbers(cx, br)
+
+    def find_plus(t):
+      """(delimiter, offset) if t == <x>.find(<delimiter>) [+ offset]"""
+      if isinstance(t, tuple) and t[0] == 'meth' and t[1] == 'find' and len(t) == 4 and t[3][0] == 'const' and isinstance(t[3][1], str):
+        return t[3][1], 0
+      if isinstance(t, tuple) and t[0] == 'binop' and t[1] in ('Add', 'Sub') and t[3][0] == 'const' and isinstance(t[3][1], int):
+        inner = find_plus(t[2])
+        if inner is not None:
+          return inner[0], inner[1] + (t[3][1] if t[1] == 'Add' else -t[3][1])
+      return None
+    for sl in [x for x in walk_no_nested(br.node, include_self=False) if isinstance(x, ast.Subscript) and isinstance(x.slice, ast.Slice)]:
+      for bound, want_len in ((sl.slice.lower, True), (sl.slice.upper, False)):
+        if bound is None:
+          continue
+        fp = find_plus(vn_br.term(bound, sl))
+        if fp is None:
+          continue
+        delim, off = fp
+        want = len(delim) if want_len else 0
+        if off == want:
+          r_x.ok('slice bound `%s` = position of %r %s' % (unparse(bound), delim, '+ its length' if want_len else '(exclusive end)'), br.loc(sl))
+        else:
+          r_x.violate('slice misses the delimiter by %d' % (off - want), br, sl, '`%s` cuts the pattern part at `%s`, i.e. %+d characters '
+                      'from the %s of the %r delimiter: a literal character next to the field is dropped from (or the delimiter is '
+                      'left in) the regex, so the rule matches other names than its pattern says'
+                      % (short(sl), unparse(bound), off - want, 'end' if want_len else 'start', delim))
     gam = repo.cls('carbon.aggregator.rules', 'AggregationRule').methods.get('get_aggregate_metric')
     if gam is not None:
-      t = unparse(gam.node).replace(' ', '')
-      if 'self.regex.match(metric_path)' in t and 'self.regex.search' not in t:
-        r_x.ok('patterns applied with regex.match (anchored at the start)', gam.loc())
-      else:
-        r_x.violate('pattern not anchored at the start', gam, None, 'get_aggregate_metric does not use self.regex.match(metric_path)',
-                    construct='self.regex.match(metric_path)')
+      rule_match_anchored(check, cx, r_x)
       # per-rule cache keyed by the whole path, storing the computed result
       g = cx.cfg(gam)
       stores = [n for n in g.nodes if n.kind == 'stmt' and isinstance(n.ast, ast.Assign) and any(
@@ -582,6 +605,27 @@ def run(check):
       else:
         r_c.violate('name cache', gam, stores[0].ast if stores else None, 'the aggregate-name cache is not a per-rule mapping from the '
                     'whole metric path to the computed result', construct='self.cache[metric_path] = result')
+
+
+def rule_match_anchored(check, cx, rule):
+  """an aggregation rule applies to a name only if its pattern matches from the first character (shared with C16:
+  the aggregation-aware router uses the same test to decide which names are inputs of an aggregate)."""
+  gam = check.repo.cls('carbon.aggregator.rules', 'AggregationRule').methods.get('get_aggregate_metric')
+  if gam is None:
+    rule.cannot_decide('AggregationRule.get_aggregate_metric not found')
+    return
+  mp = gam.params[1] if len(gam.params) > 1 else 'metric_path'
+  uses = [c for c in walk_no_nested(gam.node, include_self=False) if isinstance(c, ast.Call) and isinstance(c.func, ast.Attribute) and
+          dotted(c.func.value) == 'self.regex']
+  good = [c for c in uses if c.func.attr in ('match', 'fullmatch') and len(c.args) == 1 and dotted(c.args[0]) == mp]
+  bad = [c for c in uses if c not in good]
+  if good and not bad:
+    rule.ok('patterns applied with regex.match (anchored at the start)', gam.loc(good[0]))
+  else:
+    rule.violate('pattern not anchored at the start', gam, (bad or [None])[0], 'get_aggregate_metric applies the rule pattern with '
+                 '`%s`, not self.regex.match(%s): a name that merely contains (ends with) something the pattern matches is '
+                 'taken for an input of the aggregate' % (short(bad[0]) if bad else 'nothing', mp),
+                 construct='self.regex.match(metric_path)')
 
 
 FRESH_CTORS = {'dict', 'OrderedDict', 'defaultdict'}
